@@ -39,7 +39,11 @@ pub fn sym<A: Cx>(code: u8) -> A {
 
 pub fn view<A: Cx>(s: &SeqSlice<A>) -> Value {
     let syms: Vec<u64> = s.iter().map(|x| x.to_bits() as u64).collect();
-    json!({"len": s.len(), "syms": syms, "disp": s.to_string().into_bytes()})
+    // content is all there is (C02): the value must be == to, and hash like, the sequence
+    // rebuilt from its own symbols -- whatever bits it happens to be stored as
+    let rebuilt: Seq<A> = s.iter().collect();
+    let canon = *s == rebuilt && rebuilt == *s && !(*s != rebuilt) && feed_of(s) == feed_of(&rebuilt);
+    json!({"len": s.len(), "syms": syms, "disp": s.to_string().into_bytes(), "canon": canon})
 }
 
 pub fn panic_obs() -> Value {
